@@ -11,6 +11,21 @@ from ..loader import Func, norm, walk_expr, walk_own
 from ..prov import call_name, expand1, get_arg, refers_to_call, scope_of
 
 
+_LIB_SIG = {"diff": ["first", "second"], "patch": ["diff_result", "destination"]}
+
+
+def lib_args(c: ast.Call) -> List[ast.expr]:
+    """Positional view of a dictdiffer diff()/patch() call, whatever mix of positional/keyword arguments."""
+    names = _LIB_SIG.get(call_name(c) or "", [])
+    out = list(c.args)
+    for nm in names[len(out):]:
+        v = next((k.value for k in c.keywords if k.arg == nm), None)
+        if v is None:
+            break
+        out.append(v)
+    return out
+
+
 def _calls_named(fn: Func, name: str) -> List[ast.Call]:
     return [x for x in walk_own(fn.node) if isinstance(x, ast.Call) and call_name(x) == name]
 
@@ -60,9 +75,9 @@ def check(ck: Checker) -> None:
         if t.kind != "test" or lab != "F":
             return False
         for d in diffs:
-            if flows_from_calls(g, t, t.ast, [d]) and len(d.args) == 2:
+            if flows_from_calls(g, t, t.ast, [d]) and len(lib_args(d)) == 2:
                 srcs = []
-                for a in d.args:
+                for a in lib_args(d):
                     ps = [p for p in patches if flows_from_calls(g, t, a, [p])]
                     srcs.append(ps)
                 if all(srcs) and srcs[0][0] is not srcs[1][0]:
@@ -78,12 +93,16 @@ def check(ck: Checker) -> None:
     # the two patches: (our+their, ancestor) and (their+our, ancestor)
     sig = set()
     for p in patches:
-        if len(p.args) == 2 and isinstance(p.args[0], ast.BinOp) and isinstance(p.args[0].op, ast.Add):
-            l = [norm(a) for a in expand1(prog, mg, p.args[0].left)]
-            r = [norm(a) for a in expand1(prog, mg, p.args[0].right)]
-            side_l = "our" if any("our" in x for x in l) and not any("their" in x for x in l if "(" in x) else "their"
-            side_r = "our" if any("our" in x for x in r) and not any("their" in x for x in r if "(" in x) else "their"
-            sig.add((side_l, side_r, norm(p.args[1])))
+        pa = lib_args(p)
+        pn = next((n for n in g.nodes.values() if any(c is p for c in calls_at(n))), None)
+        if len(pa) == 2 and isinstance(pa[0], ast.BinOp) and isinstance(pa[0].op, ast.Add) and pn is not None:
+            def side_of(e):
+                for k, sc in sides.items():
+                    if flows_from_calls(g, pn, e, [sc]):
+                        return k
+                return "?"
+
+            sig.add((side_of(pa[0].left), side_of(pa[0].right), norm(pa[1])))
     ck.require({("our", "their", "ancestor"), ("their", "our", "ancestor")} <= sig, "C19.conflict", mg, mg.node,
                "both orders (ours then theirs, theirs then ours) are applied to the ancestor", f"the two application orders are not both applied to the ancestor: {sorted(sig)}", construct="patch(a+b, ancestor), patch(b+a, ancestor)")
     # early returns: other side's copy exactly when this side's diff is empty
@@ -165,18 +184,17 @@ def _policy(ck: Checker, df: Func) -> None:
     for d in scope_of(df).get(norm(h.ast.iter)):
         if d.kind == "assign":
             v = d.value
-            ok = isinstance(v, ast.Call) and call_name(v) == "list" and v.args and isinstance(v.args[0], ast.Call) and call_name(v.args[0]) == "diff" and [norm(a) for a in v.args[0].args] == df.pos_params[:2]
+            ok = isinstance(v, ast.Call) and call_name(v) == "list" and v.args and isinstance(v.args[0], ast.Call) and call_name(v.args[0]) == "diff" and [norm(a) for a in lib_args(v.args[0])] == df.pos_params[:2]
             ck.require(ok, "C19.policy", df, d.node, "tested list is the complete diff(ancestor, other)", f"tested list is {norm(v)}", construct=f"{norm(h.ast.iter)} = list(diff(...))")
     # default policy
-    defaults = [d for d in scope_of(df).get("allowed") if d.kind == "assign"]
     okd = False
-    for d in defaults:
-        v = d.value
-        if isinstance(v, (ast.List, ast.Tuple, ast.Set)) and [getattr(e, "value", None) for e in v.elts] == ["add"]:
-            nodes = [n for n in g.nodes.values() if n.ast is d.node]
-            if nodes:
-                w = cut(g, [nodes[0].id], lambda tt, lab: tt.kind == "test" and isinstance(tt.ast, ast.Name) and tt.ast.id == "allowed" and lab == "F")
-                okd = w is None
+    defaults = [n for n in g.nodes.values() if n.kind == "stmt" and isinstance(n.ast, ast.Assign) and norm(n.ast.targets[0]) == "allowed"
+                and isinstance(n.ast.value, (ast.List, ast.Tuple, ast.Set)) and [getattr(e, "value", None) for e in n.ast.value.elts] == ["add"]]
+    for n in defaults:
+        w = cut(g, [n.id], lambda tt, lab: tt.kind == "test" and isinstance(tt.ast, ast.Name) and tt.ast.id == "allowed" and lab == "F")
+        okd = okd or w is None
+    others = [n for n in g.nodes.values() if n.kind == "stmt" and isinstance(n.ast, ast.Assign) and norm(n.ast.targets[0]) == "allowed" and n not in defaults and norm(n.ast.value) != "allowed"]
+    okd = okd and not others
     pd = df.param_default("allowed")
     if not defaults and isinstance(pd, (ast.List, ast.Tuple)) and [getattr(e, "value", None) for e in pd.elts] == ["add"]:
         okd = True
